@@ -13,10 +13,10 @@ KEY = "follows-redirect-drops-body"
 CORPUS = os.path.join(fw.ROOT, "corpus", "C20", "known", "redirect_drops_body.txt")
 
 
-CLIENTS = {0: "checkNever (fix F45 = /repo 2a7fc8c: no redirect is followed)",
-           2: "checkSameMethod (fix F45b: redirects that keep the method are followed, at most ten requests)",
+CLIENTS = {0: "checkNever (fix F45 = /repo 2a7fc8c alone, F45b reverted: no redirect is followed)",
+           2: "checkSameMethod (fix F45b = /repo 833e42b: redirects that keep the method are followed, at most ten requests)",
            1: "checkDefault (no CheckRedirect: net/http follows everything)", 3: "follows 302 but not 307 (no model)"}
-ACCEPTED = (0, 2)   # AFTER F45b IS COMMITTED: (2,)  - and drop the first disjunct of Tie.ToolsRelayRedirect.n2hClient_shape
+ACCEPTED = (2,)   # F45b = /repo 833e42b is committed: Tie.ToolsRelayRedirect.n2hClient_shape accepts checkSameMethod only
 
 
 def declare(ctx):
@@ -30,12 +30,12 @@ def declare(ctx):
     ]
     ctx.assumptions += [
         "http_fin_only_after_body_accepted_this_tree: the client is Tie.ToolsRelayRedirect.treeCheck, the CheckRedirect function of "
-        "main()'s http.Client TRANSLATED by go2lean; n2hClient_shape accepts exactly two functions: checkNever (F45 = /repo 2a7fc8c, "
-        "committed) and checkSameMethod (F45b, fixes/F45b_redirect_keeps_method.patch, proposed: follow iff net/http kept the method "
-        "and fewer than ten requests were made); the real binary is probed (POST answered 307 / 302 with a Location: does a second "
+        "main()'s http.Client TRANSLATED by go2lean; n2hClient_shape accepts exactly one function: checkSameMethod (F45b = /repo 833e42b, "
+        "committed: follow iff net/http kept the method and fewer than ten requests were made; the client of F45 = 2a7fc8c alone, "
+        "checkNever, is no longer accepted: never_is_not_accepted); the real binary is probed (POST answered 307 / 302 with a Location: does a second "
         "request arrive?) and must be the translated client; every `rd` op is replayed with the translated client. POST publisher: "
-        "no hypothesis (http_fin_only_after_body_accepted: any method-preserving client, every world). GET publisher with the F45b "
-        "client: hypothesis KeepsQuery - every Location answered to a GET repeats its query string, which carries the message "
+        "no hypothesis (http_fin_only_after_body_accepted: any method-preserving client, every world). GET publisher: "
+        "hypothesis KeepsQuery - every Location answered to a GET repeats its query string, which carries the message "
         "(http_fin_only_after_body_accepted_get_partial; without it ..._get_false: GET ?d=p -> 302 Location: /elsewhere -> 200 -> FIN); "
         "what holds without it is http_fin_chain_accepted (first request of the chain carried the message to the configured "
         "address, every request was a GET, the chain ended in 200) - the harness counts such FINs as `get_fin_by_queryless_redirect` "
@@ -54,6 +54,15 @@ def regenerated_client(ctx):
                  "#eval Nsq.Gen.ToolsRelayRedirect.n2hClient_CheckRedirect_translated\n")
     rc, out = ctx.run_cmd(["lake", "env", "lean", f], timeout=300, cwd=fw.LEAN)
     ls = [l.strip() for l in out.splitlines() if l.strip()]
+    if rc != 0 or len(ls) < 2 or not ls[0].isdigit():
+        # the tie module does not build (only the F45b client is accepted since /repo 833e42b): read the same code off the
+        # regenerated translation itself, so that a tree with F45b reverted is NAMED (client 0) instead of "untranslatable"
+        with open(f, "w") as fh:
+            fh.write("import Nsq.Gen.ToolsRelayRedirect\nopen Nsq.Gen.ToolsRelayRedirect in\n"
+                     "#eval (if n2hClient_CheckRedirect_fn true true 1 = 0 then 2 else 0 : Nat)\n"
+                     "#eval Nsq.Gen.ToolsRelayRedirect.n2hClient_CheckRedirect_translated\n")
+        rc, out = ctx.run_cmd(["lake", "env", "lean", f], timeout=300, cwd=fw.LEAN)
+        ls = [l.strip() for l in out.splitlines() if l.strip()]
     if rc != 0 or len(ls) < 2 or not ls[0].isdigit() or ls[1] != "true":
         ctx.log("redirect leg: could not evaluate the translated CheckRedirect of this tree: %s" % out[-400:])
         return None
@@ -97,7 +106,7 @@ def leg(ctx, binp, tool, corr_broken):
                             " / ".join(CLIENTS[k] for k in ACCEPTED)))
     # the model is the TRANSLATED client of this tree, whatever the harness probed (the op carries the probe); if the
     # translation is not an accepted one (the tie is broken anyway) the reference is the accepted client the binary behaves
-    # as, else the committed one (F45)
+    # as, else the committed one (F45b)
     mclient = regen if regen in ACCEPTED else (probe if probe in ACCEPTED else ACCEPTED[0])
     mops = os.path.join(out, name + ".model.ops")
     with open(mops, "w") as fh:
